@@ -619,6 +619,11 @@ coap_insert_option(coap_pdu_t *pdu, coap_option_num_t number, size_t len,
   coap_option_t decode;
   size_t shrink = 0;
 
+  if (len > COAP_OPT_VALUE_MAX_LENGTH) {
+    coap_log_warn("coap_insert_option: option value too long\n");
+    return 0;
+  }
+
   if (number >= pdu->max_opt)
     return coap_add_option_internal(pdu, number, len, data);
 
@@ -711,6 +716,11 @@ coap_update_option(coap_pdu_t *pdu, coap_option_num_t number, size_t len,
   size_t new_length = 0;
   size_t old_length = 0;
 
+  if (len > COAP_OPT_VALUE_MAX_LENGTH) {
+    coap_log_warn("coap_update_option: option value too long\n");
+    return 0;
+  }
+
   option = coap_check_option(pdu, number, &opt_iter);
   if (!option)
     return coap_insert_option(pdu, number, len, data);
@@ -765,6 +775,11 @@ coap_add_option_internal(coap_pdu_t *pdu, coap_option_num_t number, size_t len,
   coap_opt_t *opt;
 
   assert(pdu);
+
+  if (len > COAP_OPT_VALUE_MAX_LENGTH) {
+    coap_log_warn("coap_add_option: option value too long\n");
+    return 0;
+  }
 
   if (number == pdu->max_opt) {
     if (!coap_option_check_repeatable(number))
